@@ -147,6 +147,14 @@ pub fn gen_num(r: &mut Rng, v: &Vars, depth: u32) -> String {
             2 => (*r.pick(&["Micros", "Cwnd", "Rate"])).to_string(),
             _ => if pool.is_empty() { lit_num(r) } else { r.pick(&pool).clone() },
         }
+    } else if r.chance(1, 12) {
+        // a bind used for its value: (:= target e) as an operand
+        let mut pool: Vec<String> = vec![];
+        for (n, b, _) in v.reports.iter().chain(v.controls.iter()) { if !*b { pool.push(n.clone()); } }
+        for (n, b) in &v.locals { if !*b { pool.push(n.clone()); } }
+        if pool.is_empty() { return lit_num(r); }
+        let t = r.pick(&pool).clone();
+        format!("({} {} {})", bind_kw(r), t, gen_num(r, v, depth - 1))
     } else {
         let l = gen_num(r, v, depth - 1);
         let d2 = if r.chance(1, 2) { depth - 1 } else { 0 };
@@ -338,6 +346,24 @@ pub fn run_c10(tier: &str, seed: u64, out: &mut dyn Write) {
             emit(out, format!("(def (Report (x 0)) (c 1)) (when true (:= c (+ {} 1)))", txt).as_bytes(), &[]);
         }
     }
+    // text the parser stops at, with a multi-byte character placed at every offset around the sizes
+    // at which an error message might cut the remainder (the cut must not land inside the character)
+    for prefix in ["(def (c 1)) (when true (report)) ", "(def (c 1)) ", "", "(def (c 1)) (when true (report)) # note\n"] {
+        for stop in ["(wen true (report))", "(when (report))", ")", "(when true (:= c (+ 1)) "] {
+            for boundary in [8usize, 16, 20, 32, 40, 48, 64, 80, 100, 120, 128, 200, 255, 256, 512] {
+                for ch in ["µ", "€", "𝛼"] {
+                    for shift in 0..ch.len() {
+                        let mut rest = String::from(stop);
+                        if rest.len() + shift > boundary { continue; }
+                        while rest.len() + shift < boundary { rest.push(if rest.len() % 7 == 0 { ' ' } else { 'x' }); }
+                        // the character starts `shift` bytes before the boundary
+                        rest.push_str(ch); rest.push_str(" # tail µs €\n (when true (report))");
+                        emit(out, format!("{}{}", prefix, rest).as_bytes(), &[]);
+                    }
+                }
+            }
+        }
+    }
     // random longer sequences
     for _ in 0..(if thorough { 200_000 } else { 8_000 }) {
         let n = r.range(4, 12);
@@ -459,6 +485,11 @@ pub fn run_c14(tier: &str, seed: u64, out: &mut dyn Write) {
         let names = vec!["x".to_string(), "Report.y".to_string()];
         for target in ["x", "Report.y"] {
             emit_param(out, &format!("lit={}", v), b"(def (x 5) (Report (y 1))) (when true (report))", &[(target.to_string(), v)], &names);
+        }
+        // ... whatever the declared initial value was (a boolean, a name)
+        let names2 = vec!["flag".to_string(), "Report.on".to_string(), "cap".to_string()];
+        for target in ["flag", "Report.on", "cap"] {
+            emit_param(out, &format!("lit={}", v), b"(def (flag true) (cap unset) (Report (volatile on false))) (when true (report))", &[(target.to_string(), v)], &names2);
         }
     }
 }
